@@ -11,7 +11,7 @@ import time
 
 V = "/verif"
 REPO = os.environ.get("VERIF_REPO", "/repo")
-BUILD = V + "/build"
+BUILD = os.environ.get("VERIF_BUILD", V + "/build")
 COQ = V + "/coq"
 BIN = BUILD + "/bin"
 
@@ -94,21 +94,27 @@ HARNESS_MODS = {
 
 
 def build_harness(name, pkg=".", out=None, tags="verif"):
-    """go build one harness program against the current /repo tree."""
+    """go build one harness program against the current tree (REPO, default /repo).
+    The module file is copied to the build directory (-modfile) with its `replace => /repo`
+    lines pointed at REPO and the repo's own go.sum beside it, so the harness sources stay
+    untouched and concurrent builds against different trees do not interfere."""
     d, mod = HARNESS_MODS[name]
     hd = "%s/harness/%s" % (V, d)
-    out = out or "%s/h_%s" % (BIN, name)
+    tag = pkg.strip("./").replace("/", "_") or "main"
+    out = out or "%s/h_%s_%s" % (BIN, name, tag)
+    md = "%s/gomod/%s" % (BUILD, name)
+    os.makedirs(md, exist_ok=True)
     with Lock("go-" + name):
-        # the harness resolves the repo's dependencies with the repo's own go.sum
+        txt = open(hd + "/go.mod").read().replace("=> /repo", "=> " + REPO)
+        with open(md + "/go.mod", "w") as f:
+            f.write(txt)
         src = "%s/%s/go.sum" % (REPO, mod)
-        if os.path.exists(src):
-            with open(src, "rb") as f:
-                data = f.read()
-            with open(hd + "/go.sum", "wb") as f:
-                f.write(data)
-        rc, o = sh(["go", "build", "-tags", tags, "-o", out, pkg], cwd=hd, timeout=900)
+        data = open(src, "rb").read() if os.path.exists(src) else b""
+        with open(md + "/go.sum", "wb") as f:
+            f.write(data)
+        rc, o = sh(["go", "build", "-modfile", md + "/go.mod", "-tags", tags, "-o", out, pkg], cwd=hd, timeout=900)
     if rc != 0:
-        raise BuildError("go build of harness '%s' against %s failed:\n%s" % (name, REPO, o[-4000:]))
+        raise BuildError("go build of harness '%s' (%s) against %s failed:\n%s" % (name, pkg, REPO, o[-4000:]))
     return out
 
 
